@@ -85,11 +85,6 @@ theorem oinv_empty : OInv Mgr.empty :=
   ⟨List.nodup_nil, ⟨List.Perm.refl _, fun pre a post h => by simp [Mgr.empty] at h,
     fun pre a post h => by simp [Mgr.empty] at h⟩, fun _ => rfl⟩
 
-/-- an op is well-formed in `m`: a system is added only under a name no registered system has -/
-def opWf (m : Mgr) : Op → Bool
-  | .add name _ _ => !(m.systems.map (·.name)).contains name
-  | _ => true
-
 theorem mgr_reorder_valid {m m' : Mgr} (h : m.reorder = some m') (hn : (m.systems.map (·.name)).Nodup) :
     ValidOrder m'.snapSrc m'.snap ∧ m'.ordered = m'.snap.map (·.id) := by
   rcases mgr_reorder_some h with ⟨o, ho, rfl⟩
@@ -200,8 +195,7 @@ theorem step_oinv {m : Mgr} {tr : List Ev} (hi : Inv m tr) (ho : OInv m) (op : O
       rw [call_names]; exact hb
 
 theorem wfFrom_cons (m : Mgr) (op : Op) (ops : List Op) :
-    wfFrom m (op :: ops) = (opWf m op && wfFrom (step m op).1 ops) := by
-  cases op <;> simp [wfFrom, opWf]
+    wfFrom m (op :: ops) = (opWf m op && wfFrom (step m op).1 ops) := rfl
 
 theorem run_oinv : ∀ (ops : List Op) {m : Mgr} {tr : List Ev}, Inv m tr → OInv m → wfFrom m ops = true →
     OInv (run m ops).1 := by
